@@ -100,14 +100,21 @@ Section Leaf.
     cbn [filter_in py_in]. rewrite IH. cbn [bind]. eexists. reflexivity.
   Qed.
 
-  Lemma allowed_total st c0 v : not_raise (h_allowed F x st (VList c0) field v).
+  Lemma allowed0_total st c0 v : not_raise (h_allowed0 F x st (VList c0) field v).
   Proof.
-    unfold h_allowed. destruct (is_iterable v && negb (is_str v)).
+    unfold h_allowed0. destruct (is_iterable v && negb (is_str v)).
     - destruct (py_iter v) as [l|]; [|exact I].
       destruct (filter_not_in_total l c0) as [r ->]. cbn [bind].
       destruct r; [exact I|]. file "UNALLOWED_VALUES". exact I.
     - cbn [py_in]. destruct (existsb (py_eq v) c0); [exact I|]. file "UNALLOWED_VALUE". exact I.
   Qed.
+
+  Lemma allowed_total st c0 v : not_raise (h_allowed F x st (VList c0) field v).
+  Proof. unfold h_allowed. cbn [allowed_members]. apply allowed0_total. Qed.
+
+  (* a mapping of allowed values is read as the list of its keys: unhashable members of the value are fine too *)
+  Lemma allowed_total_mapping st d v : not_raise (h_allowed F x st (VDict d) field v).
+  Proof. unfold h_allowed. cbn [allowed_members]. apply allowed0_total. Qed.
 
   Lemma forbidden_total st c0 v : not_raise (h_forbidden F x st (VList c0) field v).
   Proof.
@@ -118,17 +125,12 @@ Section Leaf.
     - cbn [py_in]. destruct (existsb (py_eq v) c0); [|exact I]. file "FORBIDDEN_VALUE". exact I.
   Qed.
 
-  (* contains: the constraint is a hashable scalar or a list of hashables; ANY value shape is fine *)
-  Lemma contains_total st c v :
-    (hashable c = true /\ (is_iterable c = false \/ is_str c = true)) \/ (exists l, c = VList l /\ forallb hashable l = true) ->
-    not_raise (h_contains F x st c field v).
+  (* contains: ANY constraint and ANY value shape are fine (the expected members are compared, never hashed) *)
+  Lemma contains_total st c v : not_raise (h_contains F x st c field v).
   Proof.
-    intro H. unfold h_contains. destruct (py_iter v) as [present|]; [|exact I].
-    assert (He : exists ex, (if negb (is_iterable c) || is_str c then (if hashable c then Some [c] else None) else py_set c) = Some ex).
-    { destruct H as [[Hh Hs]|[l [-> Hl]]].
-      - rewrite Hh. destruct Hs as [Hs|Hs]; rewrite Hs; cbn [negb orb]; [eexists; reflexivity|].
-        rewrite orb_true_r. eexists. reflexivity.
-      - cbn [is_iterable negb is_str orb py_set py_iter]. unfold set_of_list. rewrite Hl. eexists. reflexivity. }
+    unfold h_contains. destruct (py_iter v) as [present|]; [|exact I].
+    assert (He : exists ex, (if negb (is_iterable c) || is_str c then Some [c] else option_map dedup (py_iter c)) = Some ex).
+    { destruct c; cbn [is_iterable negb is_str orb py_iter option_map]; eexists; reflexivity. }
     destruct He as [ex ->].
     destruct (filter (fun e => negb (existsb (py_eq e) present)) ex); [exact I|].
     file "MISSING_MEMBERS". exact I.
